@@ -439,9 +439,14 @@ def ndjson(items):
     return ("\n".join(json.dumps(x, separators=(",", ":")) for x in items) + "\n").encode()
 
 
-def run_driver(binname, scenarios, timeout=1800, args=None, parallel=1):
-    """Feed scenarios (list of json values) to a harness driver; returns list of result values."""
+def run_driver(binname, scenarios, timeout=1800, args=None, parallel=1, prefix=None):
+    """Feed scenarios (list of json values) to a harness driver; returns list of result values.
+    prefix: command the driver is started through (e.g. ["unshare", "-m"])."""
     path = hbin(binname)
+    if prefix:
+        args = [path] + (args or [])
+        path = prefix[0]
+        args = list(prefix[1:]) + args
     if parallel <= 1 or len(scenarios) < 64:
         p = run([path] + (args or []), input=ndjson(scenarios), timeout=timeout)
         if p.returncode != 0:
